@@ -39,7 +39,7 @@ MANIFEST = dict(
     design_ref="5/C18",
 )
 
-TAGS = ["a", "b", "c", "item"]
+TAGS = ["a", "b", "c", "item", "ab"]
 TEXTS = ["x", "y", "z", "1", "Item 1", "none", "Null", "nul", "a", "b", " ", "q z", "\u00e9", "it's", 'say "hi"', "a]b", "v/w", "[0]", "x]", "=x"]
 SRC = os.path.join(core.REPO, "n0struct", "n0struct_xml.py")
 
